@@ -1639,7 +1639,8 @@ Definition bad_row := hd dummy_row mismatch_rows.
 Lemma bad_row_in : In bad_row bip_prefix_table /\ codec_mismatch (row_net bad_row) = true.
 Proof.
   assert (E : mismatch_rows = bad_row :: tl mismatch_rows) by (vm_compute; reflexivity).
-  apply (filter_In (fun r => codec_mismatch (row_net r))). fold mismatch_rows. rewrite E. left. reflexivity.
+  assert (I : In bad_row mismatch_rows) by (rewrite E; left; reflexivity).
+  unfold mismatch_rows in I. apply filter_In in I. exact I.
 Qed.
 
 (* concrete witnesses in the toy instance *)
